@@ -46,6 +46,9 @@ def to_smt2(assertions, model_vars=None, get_values=False):
     s = z3.Solver()
     s.add(*assertions)
     body = s.sexpr()
+    # z3-internal spellings of standard operators (divisor known non-zero: MIR asserts it before every division)
+    for a, b in (('bvudiv_i', 'bvudiv'), ('bvurem_i', 'bvurem'), ('bvsdiv_i', 'bvsdiv'), ('bvsrem_i', 'bvsrem'), ('bvsmod_i', 'bvsmod')):
+        body = body.replace('(' + a + ' ', '(' + b + ' ')
     out = ['(set-logic ALL)']
     if get_values:
         out.append('(set-option :produce-models true)')
